@@ -16,7 +16,7 @@ pub const FLOORS: &[&str] = &[
     "two_loop_revisit", "removed_breakpoint_passed", "resume:continue", "resume:step", "resume:si",
     "resume:so", "loc:abs", "loc:label", "loc:pc", "break_before_first", "break_after_last",
     "break_doubled", "nondefault_origin", "trace_invariant_checked", "origin_below_statement_count", "pause_at_break_outside_image",
-    "reset_between_list_change_and_resume", "many_breakpoints", "break_with_label", "break_with_label_after_last",
+    "reset_between_list_change_and_resume", "many_breakpoints", "break_with_label", "break_with_label_after_last", "pc_relative_breakpoint_after_eval_moved_the_pc",
 ];
 
 struct Loopy {
@@ -465,6 +465,22 @@ fn random_case(seed: u64, i: u64) -> CaseOut {
             8 => Cmd::BreakRemoveLoc(random_loc(&mut rng, &img)),
             _ => Cmd::BreakList,
         });
+    }
+    // an `eval` that moves the PC, then a breakpoint given relative to the PC: `^k` means the PC as it is now
+    let near: Vec<(String, usize)> = img.labels.iter().filter(|(_, idx)| *idx < 200).cloned().collect();
+    if !near.is_empty() && rng.chance(1, 3) {
+        let (name, idx) = rng.pick(&near).clone();
+        let at = rng.below(cmds.len() as u64 + 1) as usize;
+        let k = rng.range(0, 4) as i32;
+        let _ = name;
+        let r = rng.below(7) as u8;
+        cmds.insert(at, Cmd::MoveReg(r, img.origin().wrapping_add(idx as u16)));
+        cmds.insert(at + 1, Cmd::EvalJmp(r));
+        cmds.insert(at + 2, if rng.chance(1, 4) { Cmd::BreakRemoveLoc(Loc::Pc(k)) } else { Cmd::BreakAddLoc(Loc::Pc(k)) });
+        if rng.bool() {
+            cmds.insert(at + 3, Cmd::Continue);
+        }
+        out.class("pc_relative_breakpoint_after_eval_moved_the_pc");
     }
     session(&mut out, i, &text, stack, &cmds, seed ^ i, &built.input, &img.breaks, "random");
     out
